@@ -179,11 +179,10 @@ def _canonical_replay(kind, max_evl, log):
 
 
 # ---- shared obligation: steepest descent lowers the energy only if the force it is handed is minus the gradient in every force-evaluation branch ----
-from . import C01 as _C01_mod  # noqa: E402
-
-
-@obligation(PID, "b", title="[shared with C01.h] " + [e for e in __import__("engine.ob", fromlist=["REGISTRY"]).REGISTRY["C01"] if e[1] is _C01_mod.ob_h][0][3])
+@obligation(PID, "b", title="[shared with C01.h] Force.forward hands back minus the gradient in every branch: back-propagated (default and with '2nd_grad', where the graph is kept) and analytical — for arbitrary gradient values")
 def ob_b_shared(ob):
     """steepest descent lowers the energy only if the force it is handed is minus the gradient in every force-evaluation branch"""
+    from . import C01 as _m  # imported lazily: the harness modules share obligations in both directions
+
     ob.note("this obligation is the one registered as C01.h; it is also decided here because steepest descent lowers the energy only if the force it is handed is minus the gradient in every force-evaluation branch")
-    _C01_mod.ob_h(ob)
+    _m.ob_h(ob)
